@@ -362,7 +362,8 @@ def parse_youtube_url(url, fix_common_mistakes=True):
         if len(splitted_path) < 2:
             return None
 
-        user = splitted_path[1]
+        # NOTE: at the end of the user's url a trailing blank would be stripped
+        user = splitted_path[1].strip()
 
         if not user:
             return None
@@ -393,7 +394,8 @@ def parse_youtube_url(url, fix_common_mistakes=True):
         if len(splitted_path) < 2:
             return None
 
-        cid = splitted_path[1]
+        # NOTE: at the end of the channel's url a trailing blank would be stripped
+        cid = splitted_path[1].strip()
 
         if not cid:
             return None
